@@ -201,7 +201,7 @@ fn ident(t: &mut Tape) -> (String, String) {
 }
 
 pub fn decode(t: &mut Tape) -> GenCase {
-    let n = 1 + t.pick(8);
+    let n = if t.chance(1, 40) { 30 + t.pick(300) } else { 1 + t.pick(8) };
     let mut rules: Vec<GenRule> = vec![];
     for _ in 0..n {
         let r = match t.pick(10) {
